@@ -8,7 +8,7 @@ import SimplicityModel.Prog.Codec
 import SimplicityModel.Canon
 
 namespace Prog
-open PO
+open PO Wire
 
 variable {K : Type} [DecidableEq K]
 
@@ -136,7 +136,12 @@ theorem walk_eq_visit (ns : List Sh) (hw : WellIdx ns) (key : Nat → Option K) 
           simp only []
           obtain ⟨hr, hi⟩ := ih j f' st (by omega) (by omega)
           rw [hi]
-          exact fin_rep key t (.un t (U ns j)) rfl _ none st _ _ _ _ hr
+          exact fin_rep key t (.un t (U ns j)) rfl
+            (some (visit (keyT key) (U ns j) (seenF st.seen) st.idx).2.2.2) none st
+            (walk (chOfSh ns) key f' j st).1
+            (visit (keyT key) (U ns j) (seenF st.seen) st.idx).1
+            (visit (keyT key) (U ns j) (seenF st.seen) st.idx).2.1
+            (visit (keyT key) (U ns j) (seenF st.seen) st.idx).2.2.1 hr
       | bin j k =>
         have hjk := (hw t).2 j k hn
         simp only [hn] at hU
@@ -151,14 +156,24 @@ theorem walk_eq_visit (ns : List Sh) (hw : WellIdx ns) (key : Nat → Option K) 
             simp only []
             obtain ⟨hr, hi⟩ := ih k f' st (by omega) (by omega)
             rw [hi]
-            exact fin_rep key t (.bin t (U ns j) (U ns k)) rfl (some li) _ st _ _ _ _ hr
+            exact fin_rep key t (.bin t (U ns j) (U ns k)) rfl (some li)
+              (some (visit (keyT key) (U ns k) (seenF st.seen) st.idx).2.2.2) st
+              (walk (chOfSh ns) key f' k st).1
+              (visit (keyT key) (U ns k) (seenF st.seen) st.idx).1
+              (visit (keyT key) (U ns k) (seenF st.seen) st.idx).2.1
+              (visit (keyT key) (U ns k) (seenF st.seen) st.idx).2.2.1 hr
         | none =>
           cases hbk : seenBefore (keyT key) (seenF st.seen) (U ns k) with
           | some ri =>
             simp only []
             obtain ⟨hr, hi⟩ := ih j f' st (by omega) (by omega)
             rw [hi]
-            exact fin_rep key t (.bin t (U ns j) (U ns k)) rfl _ (some ri) st _ _ _ _ hr
+            exact fin_rep key t (.bin t (U ns j) (U ns k)) rfl
+              (some (visit (keyT key) (U ns j) (seenF st.seen) st.idx).2.2.2) (some ri) st
+              (walk (chOfSh ns) key f' j st).1
+              (visit (keyT key) (U ns j) (seenF st.seen) st.idx).1
+              (visit (keyT key) (U ns j) (seenF st.seen) st.idx).2.1
+              (visit (keyT key) (U ns j) (seenF st.seen) st.idx).2.2.1 hr
           | none =>
             simp only []
             obtain ⟨hr1, hi1⟩ := ih j f' st (by omega) (by omega)
@@ -167,12 +182,98 @@ theorem walk_eq_visit (ns : List Sh) (hw : WellIdx ns) (key : Nat → Option K) 
             have hr : Rep st (walk (chOfSh ns) key f' k (walk (chOfSh ns) key f' j st).1).1
                 ((visit (keyT key) (U ns j) (seenF st.seen) st.idx).1 ++
                   (visit (keyT key) (U ns k) (visit (keyT key) (U ns j) (seenF st.seen) st.idx).2.1
-                    (visit (keyT key) (U ns j) (seenF st.seen) st.idx).2.2.1).1) _ _ := by
+                    (visit (keyT key) (U ns j) (seenF st.seen) st.idx).2.2.1).1)
+                (visit (keyT key) (U ns k) (visit (keyT key) (U ns j) (seenF st.seen) st.idx).2.1
+                    (visit (keyT key) (U ns j) (seenF st.seen) st.idx).2.2.1).2.1
+                (visit (keyT key) (U ns k) (visit (keyT key) (U ns j) (seenF st.seen) st.idx).2.1
+                    (visit (keyT key) (U ns j) (seenF st.seen) st.idx).2.2.1).2.2.1 := by
               refine ⟨?_, ?_, ?_⟩
               · rw [hr2.outs, hr1.outs, hr1.seen, hr1.idx]
                 simp [List.map_append, Array.append_assoc]
               · rw [hr2.seen, hr1.seen, hr1.idx]
               · rw [hr2.idx, hr1.seen, hr1.idx]
             exact fin_rep key t (.bin t (U ns j) (U ns k)) rfl _ _ st _ _ _ _ hr
+
+/-! ### the decoder's canonical-order check, stated on the tree walk -/
+
+/-- shape of a wire node -/
+def shOfW {J : Type} : WNode J → Sh
+  | .injl c | .injr c | .take c | .drop c | .disc1 c => .un c
+  | .comp a b | .case a b | .pair a b | .disc a b => .bin a b
+  | _ => .leaf
+
+def shapes {J : Type} (ns : Array (WNode J)) : List Sh := ns.toList.map shOfW
+
+theorem chOfSh_shapes {J : Type} (ns : Array (WNode J)) : chOfSh (shapes ns) = wireChildren ns := by
+  funext i
+  unfold chOfSh wireChildren shapes
+  rw [List.getElem?_map, Array.getElem?_toList]
+  cases h : ns[i]? with
+  | none => rfl
+  | some w => cases w <;> rfl
+
+/-- backward references (what the node-list decoder guarantees) make the shape list well indexed -/
+theorem wellIdx_of_nodesOk {J : Type} : ∀ (l : List (WNode J)) (start : Nat), NodesOk start l →
+    ∀ (i : Nat), (∀ j, (l.map shOfW)[i]? = some (Sh.un j) → j < start + i) ∧
+      (∀ j k, (l.map shOfW)[i]? = some (Sh.bin j k) → j < start + i ∧ k < start + i)
+  | [], _, _, i => by simp
+  | w :: l, start, h, 0 => by
+    have h1 : w.Ok start := h.1
+    cases w <;> simp_all [shOfW, WNode.Ok]
+  | w :: l, start, h, i + 1 => by
+    have := wellIdx_of_nodesOk l (start + 1) h.2 i
+    simp only [List.map_cons, List.getElem?_cons_succ]
+    have e : start + 1 + i = start + (i + 1) := by omega
+    rw [e] at this
+    exact this
+
+theorem seenF_nil : seenF ([] : SeenL K) = fun _ => none := by
+  funext k; rfl
+
+/-- **C02, the check the decoder runs is the specification's check**: when `canonicalOk` accepts a
+node list with backward references, the pointer-sharing post-order walk (the recursive `PO.visit`,
+proved equal to the explicit-stack iterator in C18) from the last node yields item `i` at node `i`,
+for every `i` — the hypothesis of `canonical_reencode` and `canonical_all_used`. -/
+theorem canonicalOk_visit {J : Type} (ns : Array (WNode J)) (hw : WellIdx (shapes ns))
+    (hc : canonicalOk ns = true) :
+    ∀ (i : Nat) (o : Out),
+      (visit ptr (U (shapes ns) (ns.size - 1)) (fun _ => none) 0).1[i]? = some o → o.node.id = i := by
+  intro i o ho
+  have hb := walk_eq_visit (K := Nat) (shapes ns) hw (fun i => some i) (ns.size - 1) (ns.size - 1)
+    (ns.size + 1) ⟨#[], [], 0⟩ (Nat.le_refl _) (by omega)
+  simp only [] at hb
+  have hk : keyT (fun i => some i) = ptr := rfl
+  rw [hk, seenF_nil, chOfSh_shapes] at hb
+  obtain ⟨hrep, _⟩ := hb
+  obtain ⟨hinv, _, _⟩ := visit_root ptr (U (shapes ns) (ns.size - 1))
+  have hidx := hinv.idx i o ho
+  unfold canonicalOk at hc
+  simp only [Bool.and_eq_true, List.all_eq_true, beq_iff_eq] at hc
+  have houts := hrep.outs
+  have hmem : toW o ∈ (walk (wireChildren ns) (fun i => some i) (ns.size + 1) (ns.size - 1)
+      ⟨#[], [], 0⟩).1.outs.toList := by
+    rw [houts]
+    simp only [Array.toList_append, List.toList_toArray, Array.toList_empty, List.nil_append]
+    exact List.mem_map.mpr ⟨o, List.mem_of_getElem? ho, rfl⟩
+  have := hc.2 _ hmem
+  simp only [toW] at this
+  omega
+
+/-- … hence every node of an accepted list is used … -/
+theorem canonicalOk_all_used {J : Type} (ns : Array (WNode J)) (hw : WellIdx (shapes ns))
+    (hc : canonicalOk ns = true) :
+    (visit ptr (U (shapes ns) (ns.size - 1)) (fun _ => none) 0).1.length = ns.size - 1 + 1 :=
+  canonical_all_used (shapes ns) hw (ns.size - 1) (canonicalOk_visit ns hw hc)
+
+/-- … and re-encoding the walk's items gives back exactly the node list's shapes and references -/
+theorem canonicalOk_reencode {J : Type} (ns : Array (WNode J)) (hw : WellIdx (shapes ns))
+    (hc : canonicalOk ns = true) :
+    ∀ (i : Nat) (o : Out),
+      (visit ptr (U (shapes ns) (ns.size - 1)) (fun _ => none) 0).1[i]? = some o →
+        ((shapes ns)[i]?).getD Sh.leaf = o.shape :=
+  canonical_reencode (shapes ns) hw (ns.size - 1) (canonicalOk_visit ns hw hc)
+
+#print axioms walk_eq_visit
+#print axioms canonicalOk_visit
 
 end Prog
